@@ -67,7 +67,18 @@ Verdict(T) ==
               \o (IF ~ConsHolds(T.cons, T.c, ws, L) THEN <<"C17.additional_constraint_violated">> ELSE <<>>)
               \o (IF Value(T.o, T.kp, ws) # OptOver(T.o, T.kp, F2) THEN <<"C17.not_optimal_among_constrained_partitions">>
                   ELSE IF Value(T.o, T.kp, ws) # OptOver(T.o, T.kp, F1) THEN <<"C17.S1.not_optimal_over_all_weighted_assignments">> ELSE <<>>)
-   IN [j \in 1..Len(fs) |-> [e |-> 1, c |-> fs[j]]]
+       \* the recorded SOLVER ANSWER x[item][bin] against Build - the MIP the code is supposed to state: integer counts >= 0, every item placed
+       \* copies times, weighted sums ascending in bin index, the caller's constraint, optimal among such (S2); and the extraction of the result
+       xs == [b \in 1..k |-> SumSeq([i \in 1..Len(T.vals) |-> T.x[i][b] * T.vals[i]])]
+       bs == IF Len(T.x) = 0 \/ T.out # "ret" \/ T.inject # "" \/ F2 = {} THEN <<>>
+             ELSE IF \E i \in 1..Len(T.x) : \E b \in 1..k : T.x[i][b] < 0 THEN <<"C17.solver_answer_not_integral_or_negative">>
+             ELSE (IF \E i \in 1..Len(T.x) : SumSeq(T.x[i]) # T.copies[i] THEN <<"C17.model_lets_an_item_be_placed_a_wrong_number_of_times">> ELSE <<>>)
+               \o (IF ~NonDec(WS(xs, w)) THEN <<"C17.model_misses_the_ascending_order_constraint">> ELSE <<>>)
+               \o (IF ~ConsHolds(T.cons, T.c, WS(xs, w), L) THEN <<"C17.model_misses_the_additional_constraint">> ELSE <<>>)
+               \o (IF Value(T.o, T.kp, WS(xs, w)) # OptOver(T.o, T.kp, F2) THEN <<"C17.solver_answer_not_optimal_for_the_stated_model">> ELSE <<>>)
+               \o (IF ~SameBag(xs, IF T.fmt = "list" THEN [j \in 1..k |-> SumSeq(T.lvals[j])] ELSE BinSums(T.vals, T.lists)) THEN <<"C17.result_not_read_back_from_the_solver_answer">> ELSE <<>>)
+       all == fs \o bs
+   IN [j \in 1..Len(all) |-> [e |-> 1, c |-> all[j]]]
 
 Init == tid \in 1..Len(Traces) /\ phase = "call"
 Judge == /\ phase = "call" /\ phase' = "judged"
